@@ -31,6 +31,7 @@ var c18plain = [][2]string{
 	{"/srv/x", "/s"},
 	{"/verif", "$V"},
 	{"/vault/customer-x/", "$X/"},
+	{"corp.example.com/secret-team", "$T"}, // a directory that is not an absolute path (module-relative names of -trimpath builds)
 }
 
 var c18regexps = [][2]string{
